@@ -350,15 +350,11 @@ func (s *IndexedStore) list(tx ReadOperator, index, pattern string, offset, limi
 	} else {
 		match = func([]byte) bool { return true }
 	}
-	var matches []string
-	if limit >= 0 {
-		matches = DoListFunc(ids, match, offset, limit)
-	} else {
-		matches = make([]string, len(ids))
-		for i := range ids {
-			matches[i] = string(ids[i].Value)
-		}
+	if limit < 0 {
+		// No limit
+		limit = len(ids)
 	}
+	matches := DoListFunc(ids, match, offset, limit)
 
 	objects := make([]BinaryObject, len(matches))
 	for i, id := range matches {
